@@ -112,6 +112,10 @@ def gen_history_plan(seed, rng, tier):
                   "nth": rng.choice([0, 1, 2, 3, 5, 8, 13, 21, 34, 55, 89]),
                   "kind": rng.choice(["EIO", "EIO", "EMFILE", "EACCES"])}
     return {"kind": "history", "seed": seed, "steps": steps,
+            # submodule entries, some pinning commits of this very history
+            # (own generator: the other plans of a seed stay what they were)
+            "gitlinks": random.Random(derive_seed(seed, "c10gl")).random()
+            < 0.3,
             "alternate": rng.random() < 0.25,
             "gran_ns": rng.choice([1, 10**9]), "rfault": rfault}
 
@@ -143,6 +147,8 @@ def gen_readers_plan(seed, rng, tier):
     # objects the maintainer packed
     writer = rng.random() < 0.4 and not any(m in ("gc_none",) for m in maint)
     return {"kind": "readers", "seed": seed, "sched": _sched(rng),
+            "gitlinks": random.Random(derive_seed(seed, "c10gl")).random()
+            < 0.3,
             "writer": writer,
             "n_commits": rng.randint(2, 5),
             "layout": rng.choice(["loose", "mixed", "mixed", "two_packs",
@@ -228,9 +234,11 @@ def run_history(plan):
 
             def new_chain(parent_ok=True, salt=b""):
                 cnt[0] += 1
-                hb = H.gen_history(u, rng, rng.randint(1, 3),
+                hb = H.gen_history(u, rng, rng.randint(1, 3)
+                                   + (2 if plan.get("gitlinks") else 0),
                                    t0=1700000000 + cnt[0] * 1000,
-                                   salt=b"S%d%s" % (cnt[0], salt), tags=False)
+                                   salt=b"S%d%s" % (cnt[0], salt), tags=False,
+                                   gitlinks=bool(plan.get("gitlinks")))
                 top = hb["commits"][-1]
                 lh = live_heads()
                 if parent_ok and lh and rng.random() < 0.6:
@@ -528,7 +536,8 @@ def run_readers(plan):
         r0 = util.init_repo(rp)
         u = H.Universe()
         rng = random.Random(derive_seed(plan["seed"], "c10rd"))
-        hb = H.gen_history(u, rng, plan["n_commits"], salt=b"R")
+        hb = H.gen_history(u, rng, plan["n_commits"], salt=b"R",
+                           gitlinks=bool(plan.get("gitlinks")))
         ids = sorted(u.closure(hb["commits"] + list(hb["tags"].values())))
         st = r0.object_store
         lay = plan["layout"]
